@@ -349,13 +349,13 @@ builtin_exec(spif_charptr_t param)
             Output = (spif_charptr_t) MALLOC(fsize + 1);
             fread(Output, fsize, 1, fp);
             Output[fsize] = 0;
-            fclose(fp);
-            remove((char *) OutFile);
             Output = spiftool_condense_whitespace(Output);
         } else {
             libast_print_warning("Command at line %lu of file %s returned no output.\n",
                                  file_peek_line(), file_peek_path());
         }
+        fclose(fp);
+        remove((char *) OutFile);
     } else {
         libast_print_warning("Output file %s could not be created.  (line %lu of file %s)\n", NONULL(OutFile), file_peek_line(), file_peek_path());
     }
